@@ -261,6 +261,8 @@ func TestC20(t *testing.T) {
 				otherArch(rec)
 			} else if c.Type == "(init-time)" {
 				initTime(rec)
+			} else if c.Type == "(synthetic)" {
+				synthetic(rec)
 			}
 			return
 		}
@@ -341,7 +343,170 @@ func TestC20(t *testing.T) {
 		concurrent(rec)
 		otherArch(rec)
 		initTime(rec)
+		synthetic(rec)
 	})
+}
+
+// synthetic runs the repository's stringer on type definitions made for the
+// purpose - contiguous runs of constants whose names add up to just below, at
+// and just above 256 and 65536 bytes (where the index tables change their
+// element type), a run that starts above zero, a type with two runs - then
+// compiles what it generated and calls String on every constant and on
+// values next to them.
+func synthetic(rec *hx.Recorder) {
+	repo := hx.RepoDir()
+	build := os.Getenv("VERIF_BUILD")
+	if build == "" {
+		build = os.TempDir()
+	}
+	dir, err := os.MkdirTemp(build, "c20-synth-")
+	if err != nil {
+		rec.Note("synthetic: " + err.Error())
+		return
+	}
+	defer os.RemoveAll(dir)
+	bin := filepath.Join(dir, "stringer")
+	cmd := exec.Command("go", "build", "-tags", "verif", "-o", bin, "./cmd/fitgen/verifstringer")
+	cmd.Dir = repo
+	if out, err := cmd.CombinedOutput(); err != nil {
+		rec.Note(fmt.Sprintf("synthetic: cannot build the stringer driver: %v %s", err, firstLine(string(out))))
+		return
+	}
+	type synConst struct {
+		name  string
+		value int
+	}
+	type synType struct {
+		name   string
+		base   string
+		consts []synConst
+	}
+	var types []synType
+	// total = bytes of all names of the run; the last name is 15 bytes long
+	mk := func(tname, base string, total, start int) synType {
+		t := synType{name: tname, base: base}
+		v := start
+		used := 0
+		for total-used > 15 {
+			l := 10
+			if total-used-l < 15 {
+				l = total - used - 15
+			}
+			if l < 1 {
+				break
+			}
+			n := fmt.Sprintf("N%d", v)
+			for len(n) < l {
+				n += "x"
+			}
+			n = n[:l]
+			if l < len(fmt.Sprintf("N%d", v)) {
+				n = strings.Repeat("y", l)
+			}
+			t.consts = append(t.consts, synConst{n, v})
+			used += l
+			v++
+		}
+		last := fmt.Sprintf("L%d", v)
+		for len(last) < total-used {
+			last += "z"
+		}
+		t.consts = append(t.consts, synConst{last, v})
+		return t
+	}
+	for i, total := range []int{250, 255, 256, 257, 265, 270} {
+		types = append(types, mk(fmt.Sprintf("SynSmall%c", 'A'+i), "byte", total, 0))
+	}
+	bigTotals := []int{65530, 65545}
+	if hx.Thorough() {
+		bigTotals = []int{65530, 65535, 65536, 65537, 65545}
+	}
+	for i, total := range bigTotals {
+		types = append(types, mk(fmt.Sprintf("SynBig%c", 'A'+i), "uint16", total, 0))
+	}
+	types = append(types, mk("SynOffset", "uint16", 265, 1000))
+	two := mk("SynTwoRuns", "uint16", 265, 0)
+	second := mk("SynTwoRuns", "uint16", 258, 5000)
+	for _, c := range second.consts {
+		two.consts = append(two.consts, synConst{"S" + c.name, c.value})
+	}
+	types = append(types, two)
+
+	var src strings.Builder
+	src.WriteString("package fit\n\n")
+	var names []string
+	for _, t := range types {
+		names = append(names, t.name)
+		fmt.Fprintf(&src, "type %s %s\n\nconst (\n", t.name, t.base)
+		seen := map[string]bool{}
+		for _, c := range t.consts {
+			if seen[c.name] {
+				continue
+			}
+			seen[c.name] = true
+			fmt.Fprintf(&src, "\t%s%s %s = %d\n", t.name, c.name, t.name, c.value)
+		}
+		src.WriteString(")\n\n")
+	}
+	sort.Strings(names)
+	os.WriteFile(filepath.Join(dir, "go.mod"), []byte("module synth\n\ngo 1.21\n"), 0o644)
+	os.WriteFile(filepath.Join(dir, "types.go"), []byte(src.String()), 0o644)
+	run := exec.Command(bin, "types.go", strings.Join(names, ","))
+	run.Dir = dir
+	run.Env = append(os.Environ(), "GOFLAGS=-mod=mod", "GOWORK=off")
+	var stderr bytes.Buffer
+	run.Stderr = &stderr
+	out, err := run.Output()
+	rec.Eval("synthetic", 1)
+	if err != nil {
+		rec.Fail("synthetic", "", fmt.Sprintf("the repository's stringer fails on type definitions with name runs around 256 and 65536 bytes: %v %s", err, firstLine(stderr.String())), strCase{"(synthetic)", 0})
+		return
+	}
+	os.WriteFile(filepath.Join(dir, "types_string.go"), out, 0o644)
+	var probe strings.Builder
+	probe.WriteString("package fit\n\nimport \"testing\"\n\nfunc TestSynth(t *testing.T) {\n\tfor _, p := range []struct{ want, got string }{\n")
+	nprobe := int64(0)
+	for _, t := range types {
+		seen := map[string]bool{}
+		vals := map[int]bool{}
+		for _, c := range t.consts {
+			vals[c.value] = true
+		}
+		for ci, c := range t.consts {
+			if seen[c.name] {
+				continue
+			}
+			seen[c.name] = true
+			if len(t.consts) > 1000 && ci%40 != 0 && ci < len(t.consts)-5 {
+				continue // long runs: every 40th constant and the last five
+			}
+			fmt.Fprintf(&probe, "\t\t{%q, %s%s.String()},\n", c.name, t.name, c.name)
+			nprobe++
+		}
+		lastV := t.consts[len(t.consts)-1].value
+		for _, v := range []int{lastV + 1, lastV + 2, 250, 255} {
+			if !vals[v] && (t.base != "byte" || v < 256) {
+				fmt.Fprintf(&probe, "\t\t{\"%s(%d)\", %s(%d).String()},\n", t.name, v, t.name, v)
+				nprobe++
+			}
+		}
+	}
+	probe.WriteString("\t} {\n\t\tif p.want != p.got {\n\t\t\tt.Errorf(\"SYNTH-MISMATCH want %s got %s\", p.want, p.got)\n\t\t}\n\t}\n}\n")
+	os.WriteFile(filepath.Join(dir, "zz_synth_test.go"), []byte(probe.String()), 0o644)
+	test := exec.Command("go", "test", "-vet=off", "-count=1", "-run", "^TestSynth$", ".")
+	test.Dir = dir
+	test.Env = append(os.Environ(), "GOFLAGS=-mod=mod", "GOWORK=off")
+	tout, terr := test.CombinedOutput()
+	rec.Eval("synthetic", nprobe)
+	rec.NonTrivialEnum(nprobe)
+	switch {
+	case terr == nil:
+	case strings.Contains(string(tout), "SYNTH-MISMATCH"):
+		line := string(tout)[strings.Index(string(tout), "SYNTH-MISMATCH"):]
+		rec.Fail("synthetic", "", "String methods the repository's stringer generates for a type whose names add up to about 256 / 65536 bytes: "+firstLine(line), strCase{"(synthetic)", 0})
+	default:
+		rec.Fail("synthetic", "", "what the repository's stringer generates for types whose names add up to about 256 / 65536 bytes does not compile or run: "+firstLine(strings.TrimPrefix(string(tout), "# synth\n")), strCase{"(synthetic)", 0})
+	}
 }
 
 // initTime compiles the repository's types.go and types_string.go as a
